@@ -281,13 +281,22 @@ Theorem C20_src_fit_refuses_singular : forall ages,
 Proof. intros ages. split; intros f; [apply gen_fit_2_refuses|apply gen_fit_1_refuses]. Qed.
 Print Assumptions C20_src_fit_refuses_singular.
 
-(** precision form = covariance form: for an invertible D, for EVERY solution [w] of [(Z D Z' + I) w = r], the covariance
-    form [D Z' w] (= [D Z'(Z D Z' + I)^-1 r]) is what the code computes, [(Z'Z + D^-1)^-1 Z' r]; two random effects and one *)
-Theorem C20_cov_form : 
-  (forall Z r D Dinv b w, inv2 D = Ok Dinv -> blup2 Z r Dinv = Ok b -> cov_system2 Z D w r ->
-     fst (cov_form2 Z D w) == fst b /\ snd (cov_form2 Z D w) == snd b) /\
-  (forall z r d b w, ~ d == 0 -> blup1 z r (/ d) = Ok b -> cov_system1 z d w r -> cov_form1 z d w == b).
-Proof. split; [exact cov_form2_eq_precision|exact cov_form1_eq_precision]. Qed.
+(** precision form = covariance form: for an invertible D the n x n system [(Z D Z' + I) w = r] HAS a solution whenever the code's
+    formula is defined, and for EVERY solution [w] the covariance form [D Z' w] (= [D Z'(Z D Z' + I)^-1 r]) is what the code
+    computes, [(Z'Z + D^-1)^-1 Z' r]; two random effects and one *)
+Theorem C20_cov_form :
+  (forall Z r D Dinv b, inv2 D = Ok Dinv -> blup2 Z r Dinv = Ok b ->
+     (exists w, cov_system2 Z D w r) /\
+     (forall w, cov_system2 Z D w r -> fst (cov_form2 Z D w) == fst b /\ snd (cov_form2 Z D w) == snd b)) /\
+  (forall z r d b, ~ d == 0 -> blup1 z r (/ d) = Ok b ->
+     (exists w, cov_system1 z d w r) /\ (forall w, cov_system1 z d w r -> cov_form1 z d w == b)).
+Proof.
+  split.
+  - intros Z r D Dinv b HD Hb. split; [eexists; eapply cov_system2_solvable; eassumption|].
+    intros w. now apply cov_form2_eq_precision with (Dinv := Dinv).
+  - intros z r d b Hd Hb. split; [eexists; eapply cov_system1_solvable; eassumption|].
+    intros w. now apply cov_form1_eq_precision.
+Qed.
 Print Assumptions C20_cov_form.
 
 (** on the boundary D = 0 (an effect of zero variance) the covariance form gives 0 — there is no precision form there,
